@@ -1,9 +1,12 @@
 use crate::fw::Check;
 
+pub mod c04;
+pub mod c12;
+pub mod c13;
 pub mod c20;
 
 pub fn all() -> Vec<Box<dyn Check>> {
-    vec![Box::new(c20::C20)]
+    vec![Box::new(c04::C04), Box::new(c12::C12), Box::new(c13::C13), Box::new(c20::C20)]
 }
 
 pub fn get(id: &str) -> Option<Box<dyn Check>> {
